@@ -2,6 +2,12 @@
 //! configuration; End-of-RIB is recognised for exactly its family.
 //!
 //! request   upd CFG HEX HASH EXPECT      (see c02.rs for CFG / the reply format)
+//!           enc CFG WD ATTRS ANN         the abstract content itself (typed attributes, NLRI
+//!                                        lists, next hops; format in lean/Rc/Drv/C01.lean):
+//!                                        the reply is `ok HEX`, here from the Rust reference
+//!                                        encoder below, on the model side from the Lean
+//!                                        reference encoder `encUpdateT` which the C01
+//!                                        theorems are about - any difference breaks the tie
 //!
 //! A type-directed generator draws an abstract UPDATE content (any mix of
 //! conventional and multiprotocol sections, any subset and order of attributes,
@@ -17,9 +23,9 @@
 //! (c02::observe); the oracle demands observation = content.
 use crate::common::*;
 use crate::props::c02::{afisafi_name, cfg_rx, exec_upd, group, judge_c02, FAM_NAMES};
-use crate::props::c04::{canon_flags, gen_value, nats, show_v, V};
-use crate::props::c05::{gen_val, ref_enc, show, Shape, Val, VARIANTS};
-use crate::props::c13::{gen_segments, ref_encode as ref_encode_path};
+use crate::props::c04::{canon_flags, gen_value, nats, parse_req, req_v, show_v, V};
+use crate::props::c05::{gen_val, read, ref_enc, show, unhex_strict, Shape, Val, VARIANTS};
+use crate::props::c13::{gen_segments, ref_encode as ref_encode_path, THop};
 
 pub struct C01;
 
@@ -142,7 +148,7 @@ pub(crate) fn expect(cfg: &Cfg, c: &Content) -> String {
         let owned = match a {
             AttrC::Val { v, .. } => format!("typed:{}", show_v(v)),
             AttrC::Path { code: 2, segs, .. } => format!("typed:aspath:{}", path_text(segs, four)),
-            AttrC::Path { segs, .. } => if four { format!("typed:as4path:{}", path_text(segs, true)) } else { "*".into() },
+            AttrC::Path { segs, .. } => format!("typed:as4path:{}", path_text(segs, true)),
             _ => format!("unimpl:{}:{}:{}", attr_flags(a), attr_code(a), hex(&v)),
         };
         format!("{}:{}:{}:{}", attr_flags(a), attr_code(a), v.len(), owned)
@@ -182,6 +188,16 @@ pub(crate) fn expect(cfg: &Cfg, c: &Content) -> String {
     put("as4path", match find(17) { Some(AttrC::Path { segs, .. }) => format!("{}:{}", hex(&val(17).unwrap()), path_text(segs, true)), _ => "-".into() });
     put("cnh", val(3).map(|v| format!("uni:{}", hex(&v))).unwrap_or("-".into()));
     put("mnh", reach.as_ref().map(|(f, nh, _)| nh_text(*f, nh)).unwrap_or("-".into()));
+    // find_next_hop(k): the MP next hop when the MP_REACH_NLRI is of family k; for IPv4 unicast
+    // otherwise the conventional NEXT_HOP; nothing for every other family
+    let mut fnh: Vec<String> = Vec::new();
+    for (i, (name, k)) in FAM_NAMES.iter().enumerate() {
+        match &reach {
+            Some((f, nh, _)) if *f == i => fnh.push(format!("{}:{}", name, nh_text(*f, nh))),
+            _ => if *k == (1, 1) { if let Some(v) = val(3) { fnh.push(format!("{}:uni:{}", name, hex(&v))); } },
+        }
+    }
+    put("fnh", if fnh.is_empty() { "-".into() } else { fnh.join("&") });
     put("med", val(4).map(|v| be(&v).to_string()).unwrap_or("-".into()));
     put("lp", val(5).map(|v| be(&v).to_string()).unwrap_or("-".into()));
     put("atomic", find(6).is_some().to_string());
@@ -204,6 +220,147 @@ fn fnv(s: &str) -> String {
 pub(crate) fn case_line(cfg: &Cfg, c: &Content) -> String {
     let hx = hex(&ref_encode(cfg, c));
     format!("upd {} {} {} {}", cfg_token(cfg), hx, fnv(&hx), expect(cfg, c))
+}
+
+//------------ the abstract content as an `enc` request ------------------------------------
+
+/// can the segment list be written as a hop path whose composition is forced (one segment
+/// per run of AS_SEQUENCE hops, RFC 4271 4.3: no two adjacent AS_SEQUENCE segments, no empty one)?
+fn hop_form_ok(segs: &[(u8, Vec<u32>)]) -> bool {
+    segs.iter().all(|(t, a)| (*t == 2 && !a.is_empty()) || *t == 1 || *t == 3 || *t == 4)
+        && segs.windows(2).all(|w| !(w[0].0 == 2 && w[1].0 == 2))
+}
+
+fn attr_spec(a: &AttrC, hop_form: bool) -> String {
+    let fl = attr_flags(a);
+    match a {
+        AttrC::Val { v, .. } => format!("t~{}~{}", fl, req_v(v)),
+        AttrC::Path { code, segs, .. } if hop_form && hop_form_ok(segs) =>
+            format!("t~{}~{}:{}", fl, if *code == 2 { "aspath" } else { "as4path" }, path_text(segs, true)),
+        AttrC::Path { code, segs, .. } => {
+            let l: Vec<String> = segs.iter().map(|(t, a)| format!("{}:{}", t, nats(a))).collect();
+            format!("p~{}~{}~{}", fl, code, if l.is_empty() { "-".into() } else { l.join(",") })
+        }
+        AttrC::Raw { code, value, .. } => format!("r~{}~{}~{}", fl, code, hex(value)),
+        AttrC::Reach { fam, nh, nlri, .. } => format!("m~{}~{}~{}~{}", fl, FAM_NAMES[*fam].0, hex(nh), lst(&items(fam_shape(*fam), nlri))),
+        AttrC::Unreach { fam, nlri, .. } => format!("u~{}~{}~{}", fl, FAM_NAMES[*fam].0, lst(&items(fam_shape(*fam), nlri))),
+    }
+}
+
+/// the request whose reply is the reference encoding of the content
+pub(crate) fn spec_line(cfg: &Cfg, c: &Content, hop_form: bool) -> String {
+    let at: Vec<String> = c.attrs.iter().map(|a| attr_spec(a, hop_form)).collect();
+    format!("enc {} {} {} {}", cfg_token(cfg), lst(&items(Shape::Pfx, &c.wd)),
+        if at.is_empty() { "-".into() } else { at.join("|") }, lst(&items(Shape::Pfx, &c.ann)))
+}
+
+fn parse_items(shape: Shape, s: &str) -> Option<Vec<Val>> {
+    if s == "-" { return Some(vec![]); }
+    s.split(';').map(|it| {
+        let toks: Vec<&str> = it.split(',').collect();
+        let ap = toks.first().map(|t| t.starts_with("pid=")).unwrap_or(false);
+        let v = read(shape, ap, &toks)?;
+        if v.pid.map(|p| p >= 1 << 32).unwrap_or(false) { return None; }
+        Some(v)
+    }).collect()
+}
+
+fn small_nat(s: &str) -> Option<u64> {
+    if s.is_empty() || s.len() > 6 || !s.bytes().all(|c| c.is_ascii_digit()) { None } else { s.parse().ok() }
+}
+fn parse_u8(s: &str) -> Option<u8> { small_nat(s).and_then(|n| u8::try_from(n).ok()) }
+
+/// a hop path as one segment per run of AS_SEQUENCE hops (a run longer than 255 is split
+/// into a first segment of `n % 255` and segments of 255 - any split is valid RFC 4271
+/// wire form; this is the one C13 proves of `to_as_path`)
+fn segs_of_hops(h: &[THop]) -> Vec<(u8, Vec<u32>)> {
+    let mut out: Vec<(u8, Vec<u32>)> = Vec::new();
+    let mut run: Vec<u32> = Vec::new();
+    let flush = |run: &mut Vec<u32>, out: &mut Vec<(u8, Vec<u32>)>| {
+        if run.is_empty() { return; }
+        let k = run.len() % 255;
+        if k > 0 { out.push((2, run[..k].to_vec())); }
+        for c in run[k..].chunks(255) { out.push((2, c.to_vec())); }
+        run.clear();
+    };
+    for x in h {
+        match x {
+            THop::Asn(a) => run.push(*a),
+            THop::Seg(t, _, a) => { flush(&mut run, &mut out); out.push((*t, a.clone())); }
+        }
+    }
+    flush(&mut run, &mut out);
+    out
+}
+
+fn parse_attr(s: &str) -> Option<AttrC> {
+    let p: Vec<&str> = s.split('~').collect();
+    let fl = parse_u8(p.get(1)?)?;
+    let (flags, ext) = (fl, fl & 0x10 != 0);
+    let fam = |n: &str| FAM_NAMES.iter().position(|x| x.0 == n);
+    Some(match (p[0], p.len()) {
+        ("t", 3) => match parse_req(p[2])? {
+            V::AsPath(h) => AttrC::Path { code: 2, segs: segs_of_hops(&h), flags, ext },
+            V::As4Path(h) => AttrC::Path { code: 17, segs: segs_of_hops(&h), flags, ext },
+            v => AttrC::Val { v, flags, ext },
+        },
+        ("p", 4) => {
+            let code = match p[2] { "2" => 2u8, "17" => 17, _ => return None };
+            let segs = if p[3] == "-" { vec![] } else {
+                p[3].split(',').map(|sg| {
+                    let (t, a) = sg.split_once(':')?;
+                    if a.contains(':') { return None; }
+                    let asns: Option<Vec<u32>> = if a.is_empty() { Some(vec![]) } else { a.split('.').map(|x| if !x.is_empty() && x.bytes().all(|c| c.is_ascii_digit()) { x.parse::<u32>().ok() } else { None }).collect() };
+                    Some((parse_u8(t)?, asns?))
+                }).collect::<Option<Vec<_>>>()?
+            };
+            AttrC::Path { code, segs, flags, ext }
+        }
+        ("r", 4) => AttrC::Raw { flags, code: parse_u8(p[2])?, ext, value: unhex_strict(p[3])? },
+        ("m", 5) => { let f = fam(p[2])?; AttrC::Reach { flags, ext, fam: f, nh: unhex_strict(p[3])?, nlri: parse_items(fam_shape(f), p[4])? } }
+        ("u", 4) => { let f = fam(p[2])?; AttrC::Unreach { flags, ext, fam: f, nlri: parse_items(fam_shape(f), p[3])? } }
+        _ => return None,
+    })
+}
+
+pub(crate) fn parse_spec(w: &[&str]) -> Option<(Cfg, Content)> {
+    if w.len() != 5 || w[0] != "enc" { return None; }
+    let cfg = crate::props::c02::parse_cfg(w[1])?;
+    let wd = parse_items(Shape::Pfx, w[2])?;
+    let attrs = if w[3] == "-" { vec![] } else { w[3].split('|').map(parse_attr).collect::<Option<Vec<_>>>()? };
+    let ann = parse_items(Shape::Pfx, w[4])?;
+    Some((cfg, Content { wd, attrs, ann }))
+}
+
+/// RFC 7911: the path identifier is on the wire exactly when ADD-PATH is on for the family
+fn with_pids(cfg: &Cfg, k: (u16, u8), l: &mut [Val]) {
+    let ap = cfg_rx(cfg, k);
+    for v in l.iter_mut() { v.pid = if ap { Some(v.pid.unwrap_or(0)) } else { None }; }
+}
+
+/// `enc`: the reference encoding of the content the line describes
+fn exec_enc(line: &str) -> String {
+    let w: Vec<&str> = line.split(' ').collect();
+    let Some((cfg, mut c)) = parse_spec(&w) else { return "bad-op".into() };
+    with_pids(&cfg, (1, 1), &mut c.wd);
+    with_pids(&cfg, (1, 1), &mut c.ann);
+    for a in c.attrs.iter_mut() {
+        match a {
+            AttrC::Reach { fam, nlri, .. } | AttrC::Unreach { fam, nlri, .. } => with_pids(&cfg, FAM_NAMES[*fam].1, nlri),
+            // a two-octet AS_PATH cannot carry a larger AS number (RFC 6793: AS_TRANS is the sender's business)
+            AttrC::Path { code: 2, segs, .. } if !cfg.0 && segs.iter().any(|(_, a)| a.iter().any(|x| *x > 0xffff)) => return "err".into(),
+            _ => {}
+        }
+    }
+    format!("ok {}", hex(&ref_encode(&cfg, &c)))
+}
+
+/// the `enc` request of a generated content; the request must denote the octets the `upd`
+/// request of the same content carries (a harness bug otherwise)
+fn enc_line(cfg: &Cfg, c: &Content, hop_form: bool) -> String {
+    let l = spec_line(cfg, c, hop_form);
+    assert_eq!(exec_enc(&l), format!("ok {}", hex(&ref_encode(cfg, c))), "enc request does not denote the generated content: {}", l);
+    l
 }
 
 //------------ generator -------------------------------------------------------------
@@ -231,9 +388,20 @@ fn flag_noise(rng: &mut Rng, canon: u8) -> u8 {
     f
 }
 
+/// segments for a path attribute whose AS numbers are `four` octets wide (AS numbers above
+/// 65535 only then); every other time in the form a hop path composes to (no empty and no two
+/// adjacent AS_SEQUENCE segments), so that the `enc` request can give the path as hops
 fn small_asn_segs(rng: &mut Rng, four: bool) -> Vec<(u8, Vec<u32>)> {
-    let mut s = gen_segments(rng, true);
+    let mut s = gen_segments(rng, !four);
     if !four { for (_, a) in s.iter_mut() { for x in a.iter_mut() { *x &= 0xffff; } } }
+    if rng.bool() {
+        let mut t: Vec<(u8, Vec<u32>)> = Vec::new();
+        for (ty, a) in s {
+            if ty == 2 && a.is_empty() { continue; }
+            match t.last_mut() { Some((2, b)) if ty == 2 && a.len() + b.len() < 255 => b.extend(a), Some((2, _)) if ty == 2 => {}, _ => t.push((ty, a)) }
+        }
+        s = t;
+    }
     s
 }
 
@@ -342,13 +510,23 @@ impl Prop for C01 {
                 _ => {}
             }
             out.push(case_line(&cfg, &c));
+            out.push(enc_line(&cfg, &c, extra % 2 == 1));
         } } }
         out.push(case_line(&(true, vec![]), &Content { wd: vec![], attrs: vec![], ann: vec![] }));
         out.push(case_line(&(false, vec![((1, 1), 'b')]), &Content { wd: vec![], attrs: vec![], ann: vec![] }));
+        out.push(enc_line(&(false, vec![((1, 1), 'b')]), &Content { wd: vec![], attrs: vec![], ann: vec![] }, false));
+        out.push("enc 4 - t~64~origin -".into());
+        out.push("enc 4 p=8 - -".into());
+        out.push("enc 5 - - -".into());
         // every family x ADD-PATH x ASN width, free mixes, sizes up to 300
-        for i in 0..(5000 * scale) { let (cfg, c) = gen_case(rng, Some(i % 16), if i % 7 == 0 { 4096 } else { 400 }); out.push(case_line(&cfg, &c)); }
+        for i in 0..(5000 * scale) {
+            let (cfg, c) = gen_case(rng, Some(i % 16), if i % 7 == 0 { 4096 } else { 400 });
+            out.push(case_line(&cfg, &c));
+            // the same content as an `enc` request (AS paths as hop paths in every second, where the segments allow it)
+            out.push(enc_line(&cfg, &c, i % 2 == 0));
+        }
         // sizes at the PDU limit
-        for t in [4096usize, 4095, 4094, 4090, 4000, 2048] { for _ in 0..(2 * scale) { let (cfg, c) = gen_full(rng, t); out.push(case_line(&cfg, &c)); } }
+        for t in [4096usize, 4095, 4094, 4090, 4000, 2048] { for _ in 0..(2 * scale) { let (cfg, c) = gen_full(rng, t); out.push(case_line(&cfg, &c)); out.push(enc_line(&cfg, &c, false)); } }
         // the same octets under the three other width / conventional ADD-PATH configurations:
         // nothing is expected (no EXPECT token), the model has to agree and C02 judges
         for _ in 0..(300 * scale) {
@@ -360,10 +538,19 @@ impl Prop for C01 {
         out
     }
 
-    fn exec(&self, line: &str) -> String { exec_upd(line) }
+    fn exec(&self, line: &str) -> String { if line.starts_with("enc ") { exec_enc(line) } else { exec_upd(line) } }
 
     fn oracle(&self, line: &str, reply: &str) -> Result<(), String> {
         if reply == "bad-op" { return Ok(()); }
+        if line.starts_with("enc ") {
+            // the reference encoding itself is judged by the line diff against the Lean encoder;
+            // here: it is a frame whose length field is the number of octets (RFC 4271 4.1)
+            let Some(h) = reply.strip_prefix("ok ") else { return if reply == "err" { Ok(()) } else { Err(format!("reference encoder answered `{}`", reply)) } };
+            let b = unhex(h).ok_or("reply is not hex")?;
+            if b.len() < 23 || b.len() > 65535 { return Ok(()); }
+            if u16::from_be_bytes([b[16], b[17]]) as usize != b.len() || b[18] != 2 { return Err("reference encoding is not a framed UPDATE".into()); }
+            return Ok(());
+        }
         // never a panic, never a hang, iterators and collection accessors consistent
         judge_c02(line, reply)?;
         let w: Vec<&str> = line.split(' ').collect();
@@ -382,7 +569,7 @@ impl Prop for C01 {
                         None => x == y })
                 }
                 // next-hop kind is not content: compare the address octets
-                "mnh" => got.replacen("multi:", "uni:", 1) == want,
+                "mnh" | "fnh" => got.replace("multi:", "uni:") == want,
                 _ => got == want,
             };
             if !ok {
@@ -399,6 +586,7 @@ impl Prop for C01 {
         let w: Vec<&str> = line.split(' ').collect();
         let cfg = w.get(1).copied().unwrap_or("");
         let width = cfg.split(',').next().unwrap_or("");
+        if line.starts_with("enc ") { return format!("enc:w{}:{}", width, if reply.starts_with("ok") { "ok" } else { reply }); }
         if !reply.starts_with("ok") { return format!("w{}:{}", width, reply); }
         let ty = |n: &str| group(reply, n).map(|v| v.split(':').next().unwrap_or("").to_string()).unwrap_or_default();
         let conv = group(reply, "fams").map(|v| { let p: Vec<&str> = v.split(',').collect(); if p[0] != "-" { p[0].to_string() } else { p[1].to_string() } }).unwrap_or_default();
